@@ -57,6 +57,15 @@ Definition valid_planb (R0 : repo) (used : list N) (pl : plan) : bool :=
   forallb (fun p => memN p (excl pl)) (rm pl) &&
   forallb (fun h => if memN h (keep pl) then true else sresb [] (excl pl) R0 h) used.
 
+(* PlanPrune's reduction of keepBlobs (prune.go, "if len(plan.repackPacks) != 0"): every handle with an
+   index entry in a pack that is neither in removePacks nor in repackPacks is dropped.  ents = index
+   entries (pack, handle); rmrep = removePacks + repackPacks.  keep_blobs_fixed also skips the
+   (missing) ignorePacks. *)
+Definition keep_blobs (used : list N) (ents : list (N * N)) (rmrep : list N) : list N :=
+  filter (fun h => negb (existsb (fun e => if snd e =? h then negb (memN (fst e) rmrep) else false) ents)) used.
+Definition keep_blobs_fixed (used : list N) (ents : list (N * N)) (rmrep ignore : list N) : list N :=
+  keep_blobs used ents (rmrep ++ ignore).
+
 Definition pair_eqb (a b : N * N) : bool := (fst a =? fst b) && (snd a =? snd b).
 Definition covered (pl : plan) (R : repo) (e : N * N) : bool :=
   existsb (fun ix => if memN (fst ix) (obs pl) then false else existsb (pair_eqb e) (snd ix)) (idxs R).
